@@ -22,6 +22,7 @@ fn magic_ty(tr8: &str, m: &str, flavor: &str) -> String {
         (_, "ty") => "syn::Type".into(),
         (_, "attrs") => "Vec<syn::Attribute>".into(),
         (_, "discriminant") => "Option<syn::Expr>".into(),
+        (_, "fields") if flavor == "fields_builtin" => "darling::ast::Fields<syn::Type>".into(),
         (_, "fields") => "darling::ast::Fields<F15>".into(),
         (_, "bounds") => "Vec<syn::TypeParamBound>".into(),
         (_, "default") => "Option<syn::Type>".into(),
@@ -33,6 +34,8 @@ fn magic_ty(tr8: &str, m: &str, flavor: &str) -> String {
         },
         (_, "data") => match flavor {
             "data_wrapped" => "darling::ast::Data<darling::util::SpannedValue<V15>, darling::util::WithOriginal<F15, syn::Field>>".into(),
+            // the library's own element receivers: a variant's identifier, a field's type
+            "data_builtin" => "darling::ast::Data<syn::Ident, syn::Type>".into(),
             _ => "darling::ast::Data<V15, F15>".into(),
         },
         _ => panic!("magic {m}"),
@@ -46,12 +49,23 @@ fn recv_source(r: &Recv) -> String {
         Some(words) => format!("{fwd}, supports({})", words.replace(',', ", ")),
         None => fwd.to_string(),
     };
+    let fwd = if r.flavor == "from_ident" { format!("{fwd}, from_ident") } else { fwd };
     s.push_str(&format!("#[derive(Debug, darling::{})]\n#[darling(attributes(a){fwd})]\npub struct {} {{\n", r.tr8, r.name));
     for m in &r.magic {
         let with = if *m == "data" && r.flavor == "data_with" { "#[darling(with = data_conv)] " } else { "" };
         s.push_str(&format!("    {with}pub {m}: {},\n", magic_ty(r.tr8, m, r.flavor)));
     }
-    s.push_str("    #[darling(default)] pub k: Option<u32>,\n}\n");
+    if r.flavor == "from_ident" {
+        // no field-level default: when `k` is absent the `From<Ident>` value supplies it
+        s.push_str("    pub k: Option<u32>,\n}\n");
+        if r.tr8 == "FromField" {
+            s.push_str(&format!("impl From<Option<syn::Ident>> for {} {{ fn from(_i: Option<syn::Ident>) -> Self {{ {} {{ ident: Some(syn::parse_str::<syn::Ident>(\"changed\").unwrap()), k: Some(99) }} }} }}\n", r.name, r.name));
+        } else {
+            s.push_str(&format!("impl From<syn::Ident> for {} {{ fn from(i: syn::Ident) -> Self {{ {} {{ ident: syn::Ident::new(\"changed\", i.span()), k: Some(99) }} }} }}\n", r.name, r.name));
+        }
+    } else {
+        s.push_str("    #[darling(default)] pub k: Option<u32>,\n}\n");
+    }
     let parts: Vec<String> = r.magic.iter().map(|m| format!("(String::from(\"{m}\"), vrt::ToVal::to_val(&self.{m}))")).collect();
     let mut all = parts;
     all.push("(String::from(\"k\"), vrt::ToVal::to_val(&self.k))".into());
@@ -86,13 +100,20 @@ fn receivers() -> (Vec<Recv>, Vec<Recv>) {
         elems.push(Recv { name: format!("VS{i}"), tr8: "FromVariant", magic: vec!["ident", "discriminant", "fields", "attrs"], flavor, run_ty: format!("VS{i}") });
         elems.push(Recv { name: format!("VT{i}"), tr8: "FromVariant", magic: vec!["fields"], flavor, run_ty: format!("VT{i}") });
     }
+    elems.push(Recv { name: "VB0".into(), tr8: "FromVariant", magic: vec!["ident", "fields"], flavor: "fields_builtin", run_ty: "VB0".into() });
+    // `from_ident` next to the `ident` magic member: the member still receives the input's
+    // identifier, the other members come from the `From<Ident>` value
+    elems.push(Recv { name: "FI0".into(), tr8: "FromField", magic: vec!["ident"], flavor: "from_ident", run_ty: "FI0".into() });
+    elems.push(Recv { name: "VI0".into(), tr8: "FromVariant", magic: vec!["ident"], flavor: "from_ident", run_ty: "VI0".into() });
+    elems.push(Recv { name: "TI0".into(), tr8: "FromTypeParam", magic: vec!["ident"], flavor: "from_ident", run_ty: "TI0".into() });
     let all = ["ident", "vis", "generics", "data", "attrs"];
     let mut dis = vec![];
+    dis.push(Recv { name: "DI0".into(), tr8: "FromDeriveInput", magic: vec!["ident"], flavor: "from_ident", run_ty: "DI0".into() });
     for mask in 0..32usize {
         let magic: Vec<&'static str> = (0..5).filter(|i| mask >> i & 1 == 1).map(|i| all[i]).collect();
         dis.push(Recv { name: format!("D{mask}"), tr8: "FromDeriveInput", magic, flavor: "plain", run_ty: format!("D{mask}") });
     }
-    for (i, fl) in ["gen_ast", "gen_orig", "gen_result", "data_wrapped", "data_with"].iter().enumerate() {
+    for (i, fl) in ["gen_ast", "gen_orig", "gen_result", "data_wrapped", "data_with", "data_builtin"].iter().enumerate() {
         dis.push(Recv { name: format!("DX{i}"), tr8: "FromDeriveInput", magic: all.to_vec(), flavor: fl, run_ty: format!("DX{i}") });
         let only: Vec<&'static str> = if fl.starts_with("gen") { vec!["generics"] } else { vec!["data"] };
         dis.push(Recv { name: format!("DY{i}"), tr8: "FromDeriveInput", magic: only, flavor: fl, run_ty: format!("DY{i}") });
